@@ -249,8 +249,42 @@ def replay(case):
     run_case(case)
 
 
+def _eighths():
+    from hypothesis import strategies as st
+    v = st.integers(-79, 79).map(lambda k: k / 8.0)
+    return st.fixed_dictionaries({"x": v}, optional={"y": v, "z": v})
+
+
+def _macro_precision():
+    """A point emitted at a coarse precision, the precision raised, the very
+    same point visited again: nothing of the coarse rounding may be reused."""
+    from hypothesis import strategies as st
+    return st.tuples(_eighths(), _eighths(), st.integers(0, 1), st.integers(3, 6)).map(
+        lambda t: [{"op": "precision", "dp": t[2]},
+                   {"op": "move", "pt": t[0], "form": "kw"},
+                   {"op": "precision", "dp": t[3]},
+                   {"op": "move", "pt": t[1], "form": "kw"},
+                   {"op": "move", "pt": t[0], "form": "kw"}])
+
+
+def _macro_rezero():
+    """The same absolute move issued again right after a re-zeroing, homing or
+    probing (nothing else in between): it is a different move now."""
+    from hypothesis import strategies as st
+    mid = st.one_of(
+        _eighths().map(lambda p: {"op": "set_axis", "pt": p, "form": "kw"}),
+        st.just({"op": "auto_home", "pt": {"x": 0.0}, "form": "kw"}),
+        _eighths().map(lambda p: {"op": "probe", "mode": "towards", "pt": p, "form": "kw"}))
+    return st.tuples(_eighths(), mid, st.sampled_from(["move", "rapid"])).map(
+        lambda t: [{"op": "set_distance_mode", "mode": "absolute"},
+                   {"op": t[2], "pt": t[0], "form": "kw"}, t[1],
+                   {"op": t[2], "pt": t[0], "form": "kw"}])
+
+
 def strategy(max_ops):
     from hypothesis import strategies as st
+    single = hist.motion_op_strategy().map(lambda o: [o])
+    mp, mr = _macro_precision(), _macro_rezero()
     return st.fixed_dictionaries({
         "dp": st.integers(0, 9),
         "eol": st.sampled_from(["lf", "crlf"]),
@@ -261,7 +295,9 @@ def strategy(max_ops):
                                 [[-1000.0, -1000.0, -5.0], [1000.0, 1000.0, 5.0]]]),
         "ops": st.tuples(
             st.sampled_from([[], [], [{"op": "set_distance_mode", "mode": "relative"}]]),
-            st.lists(hist.motion_op_strategy(), min_size=1, max_size=max_ops)
+            st.lists(st.integers(0, 11).flatmap(
+                lambda k: mp if k == 0 else mr if k == 1 else single),
+                min_size=1, max_size=max_ops).map(lambda ll: [o for l in ll for o in l])
         ).map(lambda t: t[0] + t[1]),
     })
 
